@@ -86,3 +86,18 @@ Definition chk_C14 (c o : value) : bool :=
       else true
   | _ => true
   end.
+
+(* family "copierbig": ( size bs from to turns ) -> ( written contentCorrect errors finished ), a source far larger than memory
+   watched for [turns] event-loop turns and then stopped: every turn copies one block of the requested range, correctly, without
+   an error; the copy signals completion when it reaches the end of the range, and stop() signals it (again) in any case *)
+Definition chk_copierbig (c o : value) : bool :=
+  match c, o with
+  | VL [VI size; VI bs; VI from; VI to; VI turns], VL [VI written; VI okc; VI errors; VI finished] =>
+      if (bs <? 1) || (from <? 0) || (size <? from) || (negb (to =? -1) && (to <? from)) || (turns <? 0) then true
+      else
+        let rangelen := (if to =? -1 then size else Z.min size (to + 1)) - from in
+        as_bool okc && (errors =? 0) && (written =? Z.min (turns * bs) rangelen) &&
+        (finished =? (if turns * bs >=? rangelen then 2 else 1))      (* its own completion, and the one stop() always signals *)
+  | VL [VI _; VI _; VI _; VI _; VI _], _ => false
+  | _, _ => true
+  end.
